@@ -39,6 +39,10 @@ pub struct WorldCfg {
     pub lenient_bank: bool,
     pub start_ns: u64,
     pub start_height: u64,
+    /// add a careless CW20-shaped token (reports the true sender, keeps no balances, accepts zero
+    /// amounts) as the last entry of the token list — C12 worlds only
+    #[serde(default)]
+    pub sloppy20: bool,
 }
 
 pub const DEPLOYER: &str = "deployer";
@@ -53,6 +57,8 @@ pub struct Names {
     pub registry: String,
     pub hostile: String,
     pub cw20s: Vec<String>,
+    /// parallel to cw20s
+    pub sloppy20: Vec<bool>,
     pub colls: Vec<String>,
     pub sloppy: Vec<bool>,
     pub users: Vec<String>,
@@ -80,6 +86,12 @@ impl Names {
     pub fn is_cw20(&self, a: &str) -> bool {
         self.cw20s.iter().any(|c| c == a)
     }
+    pub fn is_sloppy20(&self, a: &str) -> bool {
+        self.cw20s.iter().position(|c| c == a).map_or(false, |i| self.sloppy20[i])
+    }
+    pub fn is_sloppy721(&self, a: &str) -> bool {
+        self.colls.iter().position(|c| c == a).map_or(false, |i| self.sloppy[i])
+    }
 }
 
 pub fn token_id(user_idx: usize, j: usize, per_user: usize) -> String {
@@ -94,6 +106,7 @@ pub fn build(cfg: &WorldCfg) -> Result<(Chain, Names), String> {
     let code_royalty = chain.store_code(Kind::Royalty);
     let code_hostile = chain.store_code(Kind::Hostile);
     let code_sloppy = chain.store_code(Kind::Sloppy721);
+    let code_sloppy20 = chain.store_code(Kind::Sloppy20);
 
     let users: Vec<String> = (0..cfg.users).map(|i| format!("user{i}")).collect();
 
@@ -166,9 +179,16 @@ pub fn build(cfg: &WorldCfg) -> Result<(Chain, Names), String> {
     let registry = registry.ok_or("market has no registry")?;
 
     let hostile = chain.instantiate(DEPLOYER, code_hostile, b"{}", None)?;
+    let mut sloppy20: Vec<bool> = cw20s.iter().map(|_| false).collect();
+    if cfg.sloppy20 {
+        // instantiated last so that all other addresses are the same with and without it
+        let a = chain.instantiate(DEPLOYER, code_sloppy20, b"{}", None)?;
+        cw20s.push(a);
+        sloppy20.push(true);
+    }
 
     Ok((
         chain,
-        Names { market, registry, hostile, cw20s, colls, sloppy, users, natives: cfg.natives.clone() },
+        Names { market, registry, hostile, cw20s, sloppy20, colls, sloppy, users, natives: cfg.natives.clone() },
     ))
 }
